@@ -174,7 +174,9 @@ def verify_function(world, reg, c, prop, timeout_ms=20000, mutate=None):
         o.info['witness'] = wt
       o.model = None
     res.obligations = obls
-    if res.status == 'proved' and any(o.result != 'unsat' for o in obls):
+    # a failed obligation takes precedence: assuming a false goal afterwards is what
+    # made the rest of that path infeasible
+    if res.status in ('proved', 'vacuous') and any(o.result != 'unsat' for o in obls):
       res.status = 'failed'
   except Unsupported as e:
     res.status, res.error = 'unsupported', str(e)
